@@ -223,13 +223,37 @@ func judge(class string, key []byte, o *fw.Obs) {
 			o.Fail("value", "ParsePath(%q) = %v, decimal reading is %v", s, []uint32(got), mp)
 			return
 		}
-		// UnmarshalText must agree with ParsePath
-		var un bip32path.Path
-		if !o.Try("UnmarshalText", func() { err = un.UnmarshalText([]byte(s)) }) {
+		// UnmarshalText must agree with ParsePath, also into a Path that already holds something and
+		// from a buffer the caller overwrites afterwards
+		for _, un := range []bip32path.Path{nil, {7, 8, 9, 1 << 31, 11, 12, 13}} {
+			buf := []byte(s)
+			if !o.Try("UnmarshalText", func() { err = un.UnmarshalText(buf) }) {
+				return
+			}
+			for i := range buf {
+				buf[i] = '9'
+			}
+			if err != nil || !equal(un, mp) {
+				o.Fail("value", "UnmarshalText(%q) into a reused Path = %v, err=%v; expected %v", s, []uint32(un), err, mp)
+				return
+			}
+		}
+		// the result belongs to the caller: it edits and extends it, then parses the same string again
+		for i := range got {
+			got[i] ^= 0x5a5a5a5a
+		}
+		if cap(got) > len(got) {
+			full := got[:cap(got)]
+			for i := len(got); i < len(full); i++ {
+				full[i] = 0xdeadbeef
+			}
+		}
+		var again bip32path.Path
+		if !o.Try("ParsePath (again)", func() { again, err = bip32path.ParsePath(s) }) {
 			return
 		}
-		if err != nil || !equal(un, mp) {
-			o.Fail("value", "UnmarshalText(%q) = %v, err=%v; expected %v", s, []uint32(un), err, mp)
+		if err != nil || !equal(again, mp) {
+			o.Fail("value", "ParsePath(%q) a second time, after the caller modified the first result in place, = %v (err=%v), decimal reading is %v", s, []uint32(again), err, mp)
 		}
 	}
 }
